@@ -8,5 +8,6 @@ CONSTANTS
   MaxWrites = 0
   SyncStates = {}
   StrictPolicy = TRUE
+  WithEvents = TRUE
   ConsistentEnv = TRUE
 CHECK_DEADLOCK FALSE
